@@ -1,0 +1,91 @@
+//! Verification hooks. Only compiled with `--cfg naijascript_verif`.
+//!
+//! Everything in here is passive: with no sink installed every hook is a cheap no-op, and
+//! without the cfg flag none of it exists.
+
+use std::cell::{Cell, RefCell};
+
+/// Record `shout`/`assign`/`call`/`ret`/`err`/`end` events.
+pub const EVENTS: u32 = 1;
+/// Record the environment projection after every completed statement.
+pub const ENV: u32 = 2;
+/// Record which statements execute and which the optimisation plan skips.
+pub const STMTS: u32 = 4;
+/// Record memory events (promotion, pool release, frame reset, return relocation).
+pub const MEM: u32 = 8;
+
+thread_local! {
+    static SINK: RefCell<Option<Vec<String>>> = const { RefCell::new(None) };
+    static LEVEL: Cell<u32> = const { Cell::new(0) };
+}
+
+/// Starts recording on this thread with the given event classes.
+pub fn start(level: u32) {
+    SINK.with(|s| *s.borrow_mut() = Some(Vec::new()));
+    LEVEL.with(|l| l.set(level));
+}
+
+/// Stops recording and returns the events (each a JSON object as text).
+pub fn take() -> Vec<String> {
+    LEVEL.with(|l| l.set(0));
+    SINK.with(|s| s.borrow_mut().take().unwrap_or_default())
+}
+
+/// Is this class of events being recorded?
+#[inline]
+pub fn on(class: u32) -> bool {
+    LEVEL.with(|l| l.get() & class != 0)
+}
+
+/// Records one event if its class is being recorded.
+#[inline]
+pub fn emit(class: u32, event: impl FnOnce() -> String) {
+    if on(class) {
+        SINK.with(|s| {
+            if let Some(events) = s.borrow_mut().as_mut() {
+                events.push(event());
+            }
+        });
+    }
+}
+
+/// Renders a runtime value as JSON.
+pub fn value_json(v: &crate::runtime::Value<'_>) -> String {
+    use crate::runtime::Value;
+    match v {
+        Value::Number(n) => {
+            if n.is_finite() {
+                format!("{{\"t\":\"num\",\"v\":{n:?}}}")
+            } else {
+                format!("{{\"t\":\"num\",\"v\":\"{n:?}\"}}")
+            }
+        }
+        Value::Str(s) => format!("{{\"t\":\"str\",\"v\":{}}}", json_str(s.as_ref())),
+        Value::Bool(b) => format!("{{\"t\":\"bool\",\"v\":{b}}}"),
+        Value::Null => "{\"t\":\"null\"}".into(),
+        Value::Array(items) => {
+            let inner: Vec<String> = items.iter().map(value_json).collect();
+            format!("{{\"t\":\"arr\",\"v\":[{}]}}", inner.join(","))
+        }
+        Value::Host(host) => format!("{{\"t\":\"host\",\"v\":{}}}", json_str(&host.get().to_string())),
+    }
+}
+
+/// JSON string literal for arbitrary text.
+pub fn json_str(s: &str) -> String {
+    let mut out = String::with_capacity(s.len() + 2);
+    out.push('"');
+    for c in s.chars() {
+        match c {
+            '"' => out.push_str("\\\""),
+            '\\' => out.push_str("\\\\"),
+            '\n' => out.push_str("\\n"),
+            '\r' => out.push_str("\\r"),
+            '\t' => out.push_str("\\t"),
+            c if (c as u32) < 0x20 => out.push_str(&format!("\\u{:04x}", c as u32)),
+            c => out.push(c),
+        }
+    }
+    out.push('"');
+    out
+}
